@@ -1,4 +1,8 @@
-"""Build harness crates from /repo's current working tree (symlink crates, see DESIGN §1.1)."""
+"""Build harness crates from the repository's current working tree (symlink crates, see DESIGN §1.1).
+With VERIF_REPO pointing somewhere else than /repo (mutation experiments in scratch worktrees) a private copy of
+the harness crate is made under .build/alt/<hash>/ so the shared harness directory and its target dir are never
+re-pointed under concurrent users."""
+import hashlib
 import os
 import shutil
 
@@ -13,10 +17,57 @@ CRATES = {
 }
 
 
+def _alt():
+    return os.path.realpath(util.REPO) != "/repo"
+
+
+def _alt_root():
+    h = hashlib.sha256(os.path.realpath(util.REPO).encode()).hexdigest()[:10]
+    return os.path.join(util.BUILD, "alt", h)
+
+
+def crate_dir(name):
+    if not _alt():
+        return os.path.join(HARNESS, name)
+    return os.path.join(_alt_root(), "harness", name)
+
+
+def bindir(name, release=True):
+    base = os.path.join(_alt_root(), "cargo", name) if _alt() else os.path.join(util.BUILD, "cargo", name)
+    return os.path.join(base, "release" if release else "debug")
+
+
+def _sync_alt(name):
+    """copy the harness crate's own files (not the symlinks) and rewrite /repo paths"""
+    src = os.path.join(HARNESS, name)
+    dst = crate_dir(name)
+    os.makedirs(dst, exist_ok=True)
+    for root, dirs, files in os.walk(src):
+        if "target" in dirs:
+            dirs.remove("target")
+        rel = os.path.relpath(root, src)
+        os.makedirs(os.path.join(dst, rel), exist_ok=True)
+        for f in files:
+            sp = os.path.join(root, f)
+            dp = os.path.join(dst, rel, f)
+            if os.path.islink(sp) or f == "Cargo.lock":
+                continue
+            data = open(sp, "rb").read()
+            if f == "Cargo.toml":
+                data = data.replace(b'"/repo/', ('"' + os.path.realpath(util.REPO) + "/").encode())
+            if f == "config.toml":
+                tgt = os.path.join(_alt_root(), "cargo", name)
+                import re
+                data = re.sub(rb'target-dir = "[^"]*"', ('target-dir = "%s"' % tgt).encode(), data)
+            if not os.path.exists(dp) or open(dp, "rb").read() != data:
+                with open(dp, "wb") as o:
+                    o.write(data)
+
+
 def refresh_links(name):
     sub, skip = CRATES[name]
     src = os.path.join(util.REPO, sub, "src")
-    dst = os.path.join(HARNESS, name, "src")
+    dst = os.path.join(crate_dir(name), "src")
     os.makedirs(dst, exist_ok=True)
     want = {e for e in os.listdir(src) if e not in skip}
     for e in os.listdir(dst):
@@ -29,16 +80,18 @@ def refresh_links(name):
             os.symlink(os.path.join(src, e), p)
     # lock file: same resolution as the repository
     lock_src = os.path.join(util.REPO, "Cargo.lock")
-    lock_dst = os.path.join(HARNESS, name, "Cargo.lock")
+    lock_dst = os.path.join(crate_dir(name), "Cargo.lock")
     if not os.path.exists(lock_dst):
         shutil.copy(lock_src, lock_dst)
 
 
 def cargo_build(name, *, release=True, bins=None, timeout=1800):
     """Returns the directory holding the built binaries."""
+    if _alt():
+        _sync_alt(name)
     if name in CRATES:
         refresh_links(name)
-    cdir = os.path.join(HARNESS, name)
+    cdir = crate_dir(name)
     cmd = ["cargo", "build", "--offline", "--quiet"]
     if release:
         cmd.append("--release")
@@ -50,4 +103,4 @@ def cargo_build(name, *, release=True, bins=None, timeout=1800):
     if p.returncode != 0:
         raise util.ToolError("cargo build of harness/%s failed:\n%s" % (name, (p.stdout or "")[-6000:]))
     util.log("built harness/%s in %ss" % (name, t.s()))
-    return os.path.join(util.BUILD, "cargo", name, "release" if release else "debug")
+    return bindir(name, release)
